@@ -123,7 +123,11 @@ def doDeriv (l : Line) : Option String := do
   match i.deriv x with
   | none => some s!"err:deriv {head}"
   | some j =>
-    some s!"ok {head} dlin={b01 j.isLinear} ddom={j.dom} dran={j.ran} dfld={b01 j.ranField} dval={dump j d}"
+    -- `derivative(x).derivative(d)(d)`: the second derivative call (C06.deriv_deriv)
+    let d2 := match j.deriv d with
+      | some j2 => dump j2 d
+      | none => "err"
+    some s!"ok {head} dlin={b01 j.isLinear} ddom={j.dom} dran={j.ran} dfld={b01 j.ranField} dval={dump j d} d2val={d2}"
 
 /-- Exact rational value of a finite `Float`. -/
 def floatRat (x : Float) : Option Rat :=
